@@ -141,6 +141,14 @@ func cmdSelftest(args []string) int {
 	}
 	fmt.Printf("selftest: executor follows %d/%d standard-library probe harnesses (sync, sort, strings, strconv, errors, fmt, regexp, encoding/json, io, os/path, time/context, generics)\n", okProbes, len(probes))
 
+	// 2c. the symbolic regular-expression matcher against Go's regexp
+	if n, bad := gosym.SelfTestSymRegex(); bad != "" {
+		fails++
+		fmt.Println("SELFTEST FAIL:", bad)
+	} else {
+		fmt.Printf("selftest: symbolic regexp matcher == regexp.MatchString on %d (expression, text) pairs\n", n)
+	}
+
 	// 3. regosym concrete mode vs real OPA on fixture pairs
 	dirs, _ := filepath.Glob(filepath.Join(repoDir, "test/data/integration/*"))
 	tck, _ := filepath.Glob(filepath.Join(repoDir, "test/data/tck/*/*"))
